@@ -328,7 +328,7 @@ def one_case(rng, nreq=None):
 
 def cases(rng, tier):
     out = []
-    n = 3000 if tier == "quick" else 200000
+    n = 8000 if tier == "quick" else 200000
     for _ in range(n):
         out.append(one_case(rng))
     # systematic: single request, every single-attempt outcome x disposal x preload x block, followed by a probe request
